@@ -21,8 +21,14 @@ EXPLANATION += ' R19.7 the array twin: every interpreted call repeated with arra
 
 TECHNIQUE += '; floor tests decided only between quantities of one kind (parameter kinds of both operands)'
 
+EXPLANATION += ' R19.9 no integer-literal power (negative, or >= 3) is taken of a quantity that stays an integer when the arguments are integers (numba types arithmetic by its arguments: 0 for a negative power, silent int64 wrap-around for a large one).'
+TECHNIQUE += '; syntactic type flow in numba-compiled kernels (integer-literal powers of integer-typed arguments)'
+
 def run(chk):
     repo = Repo(chk.repo)
+    # R19.9: integer arguments are values like any other; numba keeps them integers until they meet a float (an integer-literal power is taken first)
+    from .common import int_power_lint
+    int_power_lint(chk, repo, 'R19.9', ['TidalPy/cooling/cooling_models.py', 'TidalPy/rheology/viscosity/viscosity_models.py', 'TidalPy/radiogenics/radiogenic_models.py', 'TidalPy/rheology/partial_melt/melting_models.py'])
     it = Interp(repo)
     d = X.Decider(seed=chk.seed, k=3 if chk.tier == 'quick' else 10)
     eq = make_eq(chk, d)
